@@ -22,7 +22,7 @@ def tzif(zone, footer=b""):
     N, T = zone["N"], zone["T"]
     types = [(zone["off"][zone["default"]], zone["dst"][zone["default"]], zone["abbr"][zone["default"]])] + \
             [(zone["off"][t], zone["dst"][t], zone["abbr"][t]) for t in range(T)]
-    chars = bytes((65 + (i % 26)) if (i % 4) != 3 else 0 for i in range(256))
+    chars = zone.get("chars") or bytes((65 + (i % 26)) if (i % 4) != 3 else 0 for i in range(256))
     def block(v2):
         h = b"TZif" + (b"2" if True else b"\0") + b"\0" * 15
         tl = 8 if v2 else 4
@@ -42,6 +42,7 @@ class Native:
         self.zone = zone
         if self.h:
             lib().tzr_hints(ctypes.c_void_p(self.h), ctypes.c_size_t(zone.get("hint1", 0) % (1 << 64)), ctypes.c_size_t(zone.get("hint2", 0) % (1 << 64)))
+            if zone.get("ext"): lib().tzr_extend(ctypes.c_void_p(self.h), ctypes.c_longlong(zone["last_year"]))
     def ok(self): return bool(self.h)
     def brk(self, t):
         out = (ctypes.c_longlong * 9)(); lib().tzr_break(ctypes.c_void_p(self.h), ctypes.c_longlong(t), out); return list(out)
@@ -69,8 +70,18 @@ def wf(z):
         if z["unix"][i] - z["unix"][i - 1] <= abs(po[i] - po[i - 1]) + abs(po[i + 1] - po[i]): return False
     return True
 
+P400 = 146097 * 86400
+def wf_ext(z):
+    """extended table: last_year_ is the year shown at the last transition, and the table reaches back over 400 years"""
+    N = z["N"]; lastcs = z["unix"][N - 1] + z["off"][z["type"][N - 1]]
+    return wf(z) and cal.from_sec(lastcs)[0] == z["last_year"] and abs(z["last_year"]) <= (1 << 40) and \
+           z["unix"][0] <= z["unix"][N - 1] - (P400 + 2 * 366 * 86400)
 def check_break(z, nat, t):
-    ty = type_at(z, t); off = z["off"][ty]
+    if z.get("ext") and t >= z["unix"][-1]:
+        k = (t - z["unix"][-1]) // P400 + 1
+        ty = type_at(z, t - k * P400); off = z["off"][ty]
+    else:
+        ty = type_at(z, t); off = z["off"][ty]
     got = nat.brk(t)
     want = list(cal.from_sec(t + off)) + [off, 1 if z["dst"][ty] else 0, z["abbr"][ty]]
     if got != want: return "lookup(%d) = %s, expected %s (cs, offset, is_dst, abbr index)" % (t, got, want)
@@ -86,13 +97,19 @@ def make_oracle(z, cs):
         if c == 2 and inst[i] < z["unix"][i] and inst[i + 1] >= z["unix"][i]: return [2, clamp(inst[i]), z["unix"][i], clamp(inst[i + 1])]
     return None
 def check_make(z, nat, cs):
-    want = make_oracle(z, cs)
+    po = pre_off(z)
+    if z.get("ext") and cal.from_sec(cs)[0] > z["last_year"] and cs > z["unix"][-1] + po[-2] - 1:
+        k = (cal.from_sec(cs)[0] - z["last_year"] - 1) // 400 + 1
+        want = make_oracle(z, cs - k * P400)
+        if want is not None: want = [want[0]] + [clamp(v + k * P400) for v in want[1:]]
+    else:
+        want = make_oracle(z, cs)
     if want is None: return None
     got = nat.make(cs)
     if got != want: return "lookup(civil %s) = kind/pre/trans/post %s, expected %s" % (cal.from_sec(cs), got, want)
 def check_case(z, kind):
     """kind: break | make | roundtrip | order | next | prev ; returns description of a violation or None"""
-    if not wf(z): return None
+    if not (wf_ext(z) if z.get("ext") else wf(z)): return None
     nat = Native(z)
     try:
         if not nat.ok(): return "TimeZoneInfo::Load rejects a well-formed table"
@@ -128,6 +145,42 @@ def check_case(z, kind):
     finally:
         nat.close()
     return None
+
+_ub = {}
+def _ub_exe():
+    if "p" not in _ub:
+        import subprocess
+        R = build.REPO + "/src/"
+        out = os.path.join(build.workdir(), "tz_ub_replay")
+        rest = [R + f for f in ("time_zone_if.cc", "time_zone_fixed.cc", "time_zone_posix.cc", "zone_info_source.cc", "time_zone_libc.cc",
+                                "civil_time_detail.cc", "time_zone_impl.cc", "time_zone_lookup.cc", "time_zone_format.cc")]
+        cmd = ["clang++-14", "-std=c++17", "-O1", "-g", "-fsanitize=address,undefined", "-fno-sanitize-recover=all", "-fno-access-control",
+               "-I" + build.REPO + "/include", "-I" + build.REPO + "/src", "-I" + V, os.path.join(V, "replay", "tz_ub_replay.cc")] + rest + ["-o", out, "-lpthread"]
+        r = subprocess.run(cmd, capture_output=True, text=True)
+        if r.returncode != 0: raise RuntimeError("tz_ub_replay build failed: " + r.stderr[-1500:])
+        _ub["p"] = out
+    return _ub["p"]
+
+def check_ub(z):
+    """the same table and queries through an ASan+UBSan build of the real code: undefined behaviour the value comparison cannot see"""
+    import subprocess
+    if not (wf_ext(z) if z.get("ext") else wf(z)): return None
+    ops = []
+    for t in (z.get("t"),):
+        if t is not None and I64MIN <= t <= I64MAX: ops += ["b", str(t), "n", str(t), "p", str(t)]
+    for k in ("cs", "cs1", "cs2"):
+        c = z.get(k)
+        if c is not None:
+            f = cal.from_sec(c)
+            if I64MIN <= f[0] <= I64MAX: ops += ["m"] + [str(x) for x in f]
+    if not ops: return None
+    args = [_ub_exe(), "1" if z.get("ext") else "0", str(z.get("last_year", 0)), str(z.get("hint1", 0) % (1 << 64)), str(z.get("hint2", 0) % (1 << 64))] + ops
+    try: p = subprocess.run(args, input=tzif(z), capture_output=True, timeout=60)
+    except subprocess.TimeoutExpired: return "the sanitizer replay does not return within 60 s"
+    if p.returncode in (0, 7): return None
+    err = p.stderr.decode("latin1")
+    line = next((l for l in err.splitlines() if "runtime error" in l or "ERROR: AddressSanitizer" in l), err[-300:])
+    return "undefined behaviour in the real code (ASan+UBSan build): %s" % line.strip()[:400]
 
 def check_transoffset(model, form):
     """native TransOffset vs the POSIX rule evaluated by walking the calendar of a concrete year with those properties"""
